@@ -37,4 +37,11 @@ theorem failing_rows_discardable :
     (syms.filter fun s => s.ownsHeap && !s.handedOut && !releases s && s.discardable).map (·.name) = [] := by
   decide +kernel
 
+/-! ## constructors (ownership table, `Gen/OwnTab.lean`) -/
+open Never.Gen.OwnTab in
+/-- full-strength statement "no constructor stores through a pointer member of the node it has just allocated unless it set
+that member first" is false in the current tree: `object_new_string_arr` (back/object.c) writes `obj->string_arr_value->argc`
+/ `->argv` with `string_arr_value` never set.  The function has no caller (latent).  One row, exactly. -/
+theorem constructor_stores_through_unset_member : wildStores.length = 1 := by decide +kernel
+
 end Never.C16
